@@ -17,6 +17,7 @@ import tempfile
 import warnings
 
 REG = []  # (module, name, wrapper)
+ON_INSERT = None  # optional callback(wrapper, key, value) at every cache insertion (used by C05)
 _orig_lru_cache = functools.lru_cache
 _INSTALLED = False
 SCRATCH = None
@@ -47,6 +48,8 @@ def _make(f, maxsize):
             return v
         v = f(*a, **k)
         cache[key] = v
+        if ON_INSERT is not None:
+            ON_INSERT(wrapper, key, v)
         if maxsize is not None and len(cache) > maxsize:
             cache.pop(next(iter(cache)))
         return v
@@ -112,6 +115,7 @@ def install(nodehash=None, scratch=True):
     except Exception:  # noqa: BLE001
         pass
     functools.lru_cache = _orig_lru_cache
+    _snapshot_module_state()
 
 
 BASE = None
@@ -139,7 +143,67 @@ def new_scratch():
     return d
 
 
+_MODULE_STATE = []  # (container object, deep copy taken right after import)
+_MUTABLE = (dict, list, set, bytearray)
+
+
+def _snapshot_module_state():
+    """Remember every module-level / default-argument / class-level mutable container of pyrefact, so that
+    clear_caches() can put the process back into its just-imported state (closer to a fresh process than
+    clearing the lru caches alone: a scratch buffer hoisted to module scope is state too)."""
+    import collections
+    import copy
+    import types
+
+    seen = set()
+
+    def add(obj):
+        if isinstance(obj, _MUTABLE + (collections.deque,)) and id(obj) not in seen:
+            seen.add(id(obj))
+            try:
+                _MODULE_STATE.append((obj, copy.deepcopy(obj)))
+            except Exception:  # noqa: BLE001
+                pass
+
+    for modname, mod in list(sys.modules.items()):
+        if not (modname == "pyrefact" or modname.startswith("pyrefact.")) or mod is None:
+            continue
+        for name, val in list(vars(mod).items()):
+            add(val)
+            if isinstance(val, types.FunctionType) and val.__module__ == modname:
+                for d in (val.__defaults__ or ()):
+                    add(d)
+                for d in (val.__kwdefaults__ or {}).values():
+                    add(d)
+            elif isinstance(val, type) and val.__module__ == modname:
+                for cval in list(vars(val).values()):
+                    add(cval)
+
+
+def reset_module_state():
+    for obj, snap in _MODULE_STATE:
+        try:
+            if obj != snap:
+                import copy
+
+                fresh = copy.deepcopy(snap)
+                if isinstance(obj, dict):
+                    obj.clear()
+                    obj.update(fresh)
+                elif isinstance(obj, set):
+                    obj.clear()
+                    obj.update(fresh)
+                elif isinstance(obj, (list, bytearray)):
+                    obj[:] = fresh
+                else:
+                    obj.clear()
+                    obj.extend(fresh)
+        except Exception:  # noqa: BLE001
+            pass
+
+
 def clear_caches():
+    reset_module_state()
     for mod, name, w in REG:
         if mod == "pyrefact.logs":
             continue
